@@ -36,6 +36,12 @@ def make_plan(tape, prop):
         schema = gs.gen_schema(tape, cpp=True, feats=feats, max_defs=12)
         if len(schema["defs"]) >= 6:
             break
+    # enumerators that share a value (legal; which of the names a back-end prints for the value must not depend on the
+    # interpreter's hash seed - C20_h)
+    for d in schema["defs"]:
+        if d["k"] == "enum" and variant != 4 and tape.chance(1, 2):     # (the isar front-end refuses them by design)
+            for k in range(1 + tape.draw(2)):
+                d["members"].append(["%s_a%d" % (d["name"], k), d["members"][tape.draw(len(d["members"]))][1]])
     plan = {"sim": "det", "prop": prop, "schema": schema}
     plan["ntails"] = 1 + tape.draw(3)
     plan["hashseeds"] = [0, 1, 2, 3, 4242, 1 + tape.draw(1 << 20), 1 + tape.draw(1 << 20)]
